@@ -959,6 +959,8 @@ def opt_case(case):
             m = max(1, m)
             ks = keys[:m]
             cells = _cells(rng, v, m)
+            if m == 1 and cells[0] == b"":
+                cells = [b"e"]          # a sole empty cell is a blank line (inherent; same exclusion as in rt)
             recs.append(list(zip(ks, cells)))
             exp_rows.append(cells + [b""] * max(0, n - m))
         flag = case.get("flag")
